@@ -73,14 +73,6 @@ def intBitwise (f : Nat → Nat → Nat) (x y : Int) : Int :=
 
 def unit (a : Int) (m : Nat) : Bool := Nat.gcd (a % (m : Int)).toNat m == 1
 
-/-- `x^e mod m` for a signed exponent (negative: power of the inverse; undefined → none) -/
-def powModI (x : Nat) (e : Int) (m : Nat) : Option Nat :=
-  if e ≥ 0 then some (powMod x e.toNat m) else
-  if m = 1 then some 0 else
-  (invMod x m).map fun xi => powMod xi e.natAbs m
-
-def symMod (x : Int) (m : Nat) : Int := let r := x % (m : Int); if 2 * r ≥ m then r - m else r
-
 def inRangeSym (x : Int) (m : Nat) : Bool := decide (-(m : Int) ≤ 2 * x) && decide (2 * x < m)
 
 /-- the model's answer for a modular square root line (relational) -/
@@ -167,15 +159,21 @@ def handleNat (op : String) (args : List String) (rhs : String) : Verdict :=
     | _, _ => .unsupported "args"
   | "n.gcd", [al, xs, ys] =>
     match parseCV xs, parseCV ys with
-    | some x, some y => classify op al "nat-output-alias" (rN (Nat.gcd x.nat y.nat) (imax x.c y.c)) rhs
+    | some x, some y =>
+      -- the mirrored binary algorithm at the capacity the Go code uses; `Props.C17.gcd_eq`: it is `Nat.gcd`
+      let g := gcdBin (imax x.c y.c).toNat x.nat y.nat
+      if g ≠ Nat.gcd x.nat y.nat then .unsupported "model gcd" else
+      classify op al "nat-output-alias" (rN g (imax x.c y.c)) rhs
     | _, _ => .unsupported "args"
   | "n.coprime", [xs, ys] =>
     match parseCV xs, parseCV ys with
-    | some x, some y => spec op (b01 (Nat.gcd x.nat y.nat == 1)) rhs
+    | some x, some y => spec op (b01 (gcdBin (imax x.c y.c).toNat x.nat y.nat == 1)) rhs
     | _, _ => .unsupported "args"
   | "n.lcm", [xs, ys] =>
     match parseCV xs, parseCV ys with
-    | some x, some y => spec op (hx (Nat.lcm x.nat y.nat)) rhs
+    | some x, some y =>
+      let l := lcmBin (imax x.c y.c).toNat x.nat y.nat
+      if l ≠ Nat.lcm x.nat y.nat then .unsupported "model lcm" else spec op (hx l) rhs
     | _, _ => .unsupported "args"
   | "n.sqrt", [xs] =>
     match parseCV xs with
@@ -277,12 +275,17 @@ def handleInt (op : String) (args : List String) (rhs : String) : Verdict :=
       let need := if op == "i.mul" then x.c + y.c else imax x.c y.c + 1
       let c := cap.getD need
       let v : Int := if op == "i.add" then x.int + y.int else if op == "i.sub" then x.int - y.int else x.int * y.int
-      if c < need ∧ !(al == "a2" && op != "i.mul") then
+      if c < need then
         -- truncating capacity (convention): the result is correct modulo 2^cap, magnitude below 2^cap
         match parseCV rhs with
         | some r =>
           let m : Int := ((2 ^ c.toNat : Nat) : Int)
-          if r.c = c ∧ (r.v - v) % m = 0 ∧ r.v.natAbs < 2 ^ c.toNat then .ok else .diff (rI (truncI v c) c)
+          if r.c = c ∧ (r.v - v) % m = 0 ∧ r.v.natAbs < 2 ^ c.toNat then .ok
+          else if (r.v - v) % m ≠ 0 then
+            -- not even correct modulo 2^cap: wrong beyond the truncation convention
+            .bad (if al == "a2" && op != "i.mul" then "int-add-alias-rhs" else if al != "a0" then "int-output-alias" else op)
+              ("wrong modulo 2^cap: expected≡" ++ rI (truncI v c) c ++ " observed=" ++ rhs)
+          else .diff (rI (truncI v c) c)
         | none => .diff (rI (truncI v c) c)
       else classify op al (if al == "a2" && op != "i.mul" then "int-add-alias-rhs" else "int-output-alias") (rI v c) rhs
     | _, _, _ => .unsupported "args"
@@ -291,7 +294,7 @@ def handleInt (op : String) (args : List String) (rhs : String) : Verdict :=
     | some x, some y =>
       let vt := op == "i.divvt" || op == "i.edivvt"
       let eu := op == "i.ediv" || op == "i.edivvt"
-      let qr := if eu then edivmod x.int y.int else tdivmod x.int y.int
+      let qr := if eu then edivFromAbs x.int y.int else tdivFromAbs x.int y.int   -- = Int.ediv/emod, Int.tdiv/tmod (`Props.C17.divmod_mirror`)
       let model := if y.int = 0 then "none" else "ok:" ++ rI qr.1 x.c ++ "," ++ rI qr.2 y.c
       let modelV := if y.int = 0 then "none" else "ok:" ++ hi qr.1 ++ "," ++ hi qr.2
       if vt then classify "divvt-short-numerator-wrong" al "divvt-alias-numerator" modelV (stripCaps rhs)
@@ -557,8 +560,8 @@ def handleNum (op : String) (args : List String) (rhs : String) : Verdict :=
   | "Z.div", [as, bs] | "Z.divvt", [as, bs] =>
     match hexToInt? as, hexToInt? bs with
     | some a, some b =>
-      let t := tdivmod a b
-      let e := edivmod a b
+      let t := tdivFromAbs a b
+      let e := edivFromAbs a b
       let exact := if b = 0 then "none" else if t.2 = 0 then "ok:" ++ hi t.1 else "none"
       let round := if b = 0 then "none" else "ok:" ++ hi t.1
       let ed := if b = 0 then "none" else "ok:" ++ hi e.1 ++ ":" ++ hi e.2
@@ -583,8 +586,8 @@ def handleNum (op : String) (args : List String) (rhs : String) : Verdict :=
       let b : Int := bd
       let div := if bn = 0 then "none" else "ok:" ++ ratS (if bn < 0 then -(an * b) else an * b) (ad * bn.natAbs)
       let inv := if an = 0 then "none" else "ok:" ++ ratS (if an < 0 then -a else a) an.natAbs
-      let fl := an / a
-      let ce := if an % a = 0 then fl else fl + 1
+      let fl := ratFloor an ad
+      let ce := ratCeil an ad
       spec op (joinComma [ratS (an * b + bn * a) (ad * bd), ratS (an * b - bn * a) (ad * bd), ratS (an * bn) (ad * bd), div, inv, ratS (-an) ad, ratCanon an ad,
         "ok:" ++ hi ce, "ok:" ++ hi fl,
         b01 (decide (an * b ≤ bn * a)) ++ b01 (an * b == bn * a) ++ b01 (an % a == 0) ++ b01 (an == 0) ++ b01 (an == a) ++ b01 (decide (an < 0)) ++ b01 (decide (an > 0))]) rhs
@@ -628,7 +631,9 @@ def handleMisc (op : String) (args : List String) (rhs : String) : Verdict :=
   | "jacobi", [xs, ys] =>
     match hexToInt? xs, hexToNat? ys with
     | some x, some y =>
-      let model := if y % 2 = 0 then "reject" else toString (jacobi x y)
+      let model := match jacobiChecked x y with
+        | none => "reject"
+        | some j => toString j
       if model == rhs then .ok
       else if x < 0 then .bad "jacobi-negative-numerator" ("expected=" ++ model ++ " observed=" ++ rhs)
       else .bad "jacobi" ("expected=" ++ model ++ " observed=" ++ rhs)
@@ -693,12 +698,280 @@ def handleMisc (op : String) (args : List String) (rhs : String) : Verdict :=
       | _, _ => .bad "prime-generation-failed" rhs
     else .unsupported ("C17 op " ++ op)
 
-def handle (op : String) (args : List String) (rhs : String) : Verdict :=
+
+/-! ### second part: the remaining exported methods (harness/c17_more.go) -/
+
+/-- field-wise comparison; `none` marks a relational field decided by `rel index observed` -/
+def fieldsVerdict (key : String) (exp : List (Option String)) (rel : Nat → String → Bool) (rhs : String) : Verdict :=
+  let got := splitComma rhs
+  if got.length ≠ exp.length then .bad key ("field count " ++ toString got.length ++ "/" ++ toString exp.length ++ ": " ++ rhs) else
+  let bad := (exp.zip got).zipIdx.filter fun ((e, g), i) =>
+    match e with
+    | some s => s != g
+    | none => !rel i g
+  match bad with
+  | [] => .ok
+  | ((e, g), i) :: _ => .bad key ("field " ++ toString i ++ " expected=" ++ e.getD "<relation>" ++ " observed=" ++ g)
+
+def okIf (c : Bool) (s : String) : String := if c then "ok:" ++ s else "none"
+
+/-- announced length of a value that went through `FromBytes(big.Bytes())`: whole bytes (`NatZero` announces 1) -/
+def byteLen (n : Nat) : Nat := 8 * ceilDiv (bitLen n) 8
+
+def primeS (n : Nat) : String := b01 (decide (bitLen n ≤ 1300) && probablyPrime n)
+
+/-- `lo ≤ v < hi` for a sampled value rendered in hex (`err` exactly for an empty range) -/
+def inRangeI (lo hi : Int) (g : String) : Bool :=
+  if g == "err" then decide (lo ≥ hi) else
+  match hexToInt? g with
+  | some v => decide (lo ≤ v) && decide (v < hi)
+  | none => false
+
+def ratLe (an : Int) (ad : Nat) (bn : Int) (bd : Nat) : Bool := decide (an * (bd : Int) ≤ bn * (ad : Int))
+def ratLt (an : Int) (ad : Nat) (bn : Int) (bd : Nat) : Bool := decide (an * (bd : Int) < bn * (ad : Int))
+
+def unitOf (a m : Nat) : Bool := Nat.gcd (a % m) m == 1
+
+def handleMore (op : String) (args : List String) (rhs : String) : Option Verdict :=
+  match op, args with
+  | "NP.arith", [as, bs, shs] => some <|
+    match hexToNat? as, hexToNat? bs, shs.toNat? with
+    | some a, some b, some sh =>
+      fieldsVerdict op ([hx (a + b), hx (a * b), hx (2 * a), hx (a * a), hx (a + 1), okIf (a != 1) (hx (a - 1)), okIf (decide (b < a)) (hx (a - b)),
+        okIf (a % b == 0) (hx (a / b)), okIf (a == 1) "1", hx (a <<< sh), okIf (a >>> sh != 0) (hx (a >>> sh)),
+        ordS a b ++ b01 (decide (a ≤ b)) ++ b01 (a == b) ++ b01 (a == 1) ++ b01 (a % 2 == 1) ++ b01 (a % 2 == 0) ++ b01 (Nat.gcd a b == 1),
+        toString ((a >>> sh) % 2), toString ((a >>> (8 * (sh / 8))) % 256), toString (bitLen a), toString (byteLen a), hx (a % 2 ^ 64),
+        bytesHex (natToBytes a (ceilDiv (bitLen a) 8)), hx (a % b)].map some) (fun _ _ => false) rhs
+    | _, _, _ => .unsupported "args"
+  | "N.more", [as, bs, cs, rs, los, his] => some <|
+    match hexToNat? as, hexToNat? bs, hexToInt? cs, parseRat rs, hexToNat? los, hexToNat? his with
+    | some a, some b, some c, some (rn, rd), some rlo, some rhi =>
+      let ok := "ok:" ++ hx a
+      fieldsVerdict op [some (hx (a * b)), some (okIf (a == 1) "1"), some "none", some (b01 (a == 0) ++ "1"), some (primeS a), some (hx (a % 2 ^ 64)), some (hx a),
+        some (toString (if a = 0 then 1 else byteLen a)), some (hx (a % 2 ^ 64)), some (okIf (a != 0) (hx a)), some (okIf (decide (c ≥ 0)) (hi c)),
+        some (okIf (rn % (rd : Int) == 0 && decide (rn ≥ 0)) (hi (rn / (rd : Int)))), some ok, some ok, some ok, some ok, none]
+        (fun _ g => inRangeI rlo rhi g) rhs
+    | _, _, _, _, _, _ => .unsupported "args"
+  | "Z.more", [as, bs, ms, rs, i64s, los, his] => some <|
+    match hexToInt? as, hexToInt? bs, hexToNat? ms, parseRat rs, hexToInt? i64s, hexToInt? los, hexToInt? his with
+    | some a, some b, some m, some (rn, rd), some i64, some rlo, some rhi =>
+      let abs := a.natAbs
+      let am := (a % (m : Int)).toNat
+      fieldsVerdict op [some (hi (-a)), some (hi (a - b)), some (b01 (a % 2 == 1) ++ "1"), some (b01 (decide (bitLen abs ≤ 1300) && decide (a ≥ 0) && probablyPrime abs)),
+        some (toString (bitLen abs)), some (toString (if a = 0 then 1 else bitLen abs)),
+        some (hi i64), some (hi (i64 % ((2 ^ 64 : Nat) : Int))), some ("ok:" ++ hx abs), some (okIf (abs != 0) (hx abs)),
+        some (okIf (rn % (rd : Int) == 0) (hi (rn / (rd : Int)))), some ("ok:" ++ hx abs), some ("ok:" ++ hi a), some ("ok:" ++ hi a), some ("ok:" ++ hx abs),
+        some ("ok:" ++ hi (symMod am m)), some ("ok:" ++ hx am), none]
+        (fun _ g => inRangeI rlo rhi g) rhs
+    | _, _, _, _, _, _, _ => .unsupported "args"
+  | "Q.more", [xs, ys, cs, i64s, ms] => some <|
+    match parseRat xs, parseRat ys, hexToInt? cs, hexToInt? i64s, hexToNat? ms with
+    | some (an, ad), some (bn, bd), some c, some i64, some m =>
+      let a : Int := ad
+      let b : Int := bd
+      let div := if bn = 0 then "none" else "ok:" ++ ratS (if bn < 0 then -(an * b) else an * b) (ad * bn.natAbs) ++ ":0|1"
+      -- lo, hi = the two operands in order
+      let xLe := ratLe an ad bn bd
+      let lon := if xLe then an else bn
+      let lod := if xLe then ad else bd
+      let hin := if xLe then bn else an
+      let hid := if xLe then bd else ad
+      let relLast (g : String) : Bool :=
+        match g.splitOn ";" with
+        | [l, h, r, ri] =>
+          l == ratS lon lod && h == ratS hin hid &&
+          (if r == "err" then !(ratLt lon lod hin hid)
+           else match parseRat r with
+             | some (rnn, rdd) => ratLe lon lod rnn rdd && ratLt rnn rdd hin hid && r == ratCanon rnn rdd
+             | none => false) &&
+          (let cl := ratCeil lon lod
+           let ch := ratCeil hin hid
+           if ri == "err" then decide (cl ≥ ch)
+           else match hexToInt? ri with
+             | some v => decide (cl ≤ v) && decide (v < ch)
+             | none => false)
+        | _ => false
+      fieldsVerdict op [some (ratS (an * a + an * a) (ad * ad)), some (ratS (an * an) (ad * ad)), some (ratS (an * b - bn * a) (ad * bd)), some div,
+        some (b01 (an % a == 0 && decide (an ≥ 0) && decide (bitLen (an / a).natAbs ≤ 1300) && probablyPrime (an / a).toNat)),
+        some ("ok:" ++ ratS c 1), some (ratS i64 1), some (ratS (i64 % ((2 ^ 64 : Nat) : Int)) 1), some ("ok:" ++ ratS c.natAbs 1), some (okIf (c != 0) (ratS c.natAbs 1)),
+        some ("ok:" ++ ratS (c % (m : Int)) 1), some ("ok:" ++ ratS c 1), some ("ok:" ++ ratCanon an ad), none]
+        (fun _ g => relLast g) rhs
+    | _, _, _, _, _ => .unsupported "args"
+  | "Zn.more", [ms, as, bs, es, bitss, ks, bits, chs, i64s, rs] => some <|
+    match hexToNat? ms, hexToNat? as, hexToNat? bs, hexToInt? es, bitss.toNat?, hexToNat? ks, bits.toNat?, hexToInt? i64s, parseRat rs with
+    | some m, some av, some bv, some e, some ebits, some k, some bit, some i64, some (rn, rd) =>
+      let a := av % m
+      let b := bv % m
+      let mi : Int := m
+      let blm := bitLen m
+      let dom := probablyPrime m
+      match powModI a (truncI e ebits) m with
+      | none => .unsupported "negative exponent of a non-unit"
+      | some pe =>
+        let inR := okIf (decide (av < m)) (hx av)
+        let u64 := (i64 % ((2 ^ 64 : Nat) : Int)).toNat
+        fieldsVerdict op [some (toString ((a >>> bit) % 2)), some (bytesHex (natToBytes a (ceilDiv blm 8))), some (ordS a b), some (b01 (Nat.gcd a b == 1)),
+          some (if dom && b != 0 then "ok:" ++ hx (a / b % m) ++ ":" ++ hx (a % b % m) else "none"),
+          some (hx pe), some (b01 (a + 1 == m) ++ b01 (a % 2 == 0) ++ b01 (a % 2 == 1) ++ b01 (a != 0)),
+          some (primeS a), some (hx (a * k % m)), some (hx (if chs == "0" then a else b)), some (toString (bitLen a)),
+          some inR, some inR, some ("ok:" ++ hx a), some inR,
+          some ("ok:" ++ hx (i64 % mi).toNat), some (hx (u64 % m)), some ("ok:" ++ hx a), some inR, some (okIf (av != 0) (hx a)),
+          some (okIf (rn % (rd : Int) == 0) (hx ((rn / (rd : Int)) % mi).toNat)), some (b01 (decide (av < m))),
+          some (if m = 1 then "na" else hx (m - 1)), some (if m = 1 then "na" else "1"), none,
+          some inR, some (b01 dom), some (toString (byteLen m) ++ ":" ++ toString (2 * byteLen m)), some (hx b)]
+          (fun _ g => match hexToNat? g with | some v => decide (v < m) | none => false) rhs
+    | _, _, _, _, _, _, _, _, _ => .unsupported "args"
+  | "Zn.order", [ms, as] => some <|
+    match hexToNat? ms, hexToNat? as with
+    | some m, some av =>
+      let a := av % m
+      -- bottom = the least element 0, top = the greatest element m-1 (specification); the sign convention of
+      -- `IsNegative` (a > ⌊(m+1)/2⌋) is mirrored
+      let specPart := b01 (a == 0) ++ "1" ++ b01 (a + 1 == m) ++ "1"
+      let neg := b01 (decide (a > (m + 1) / 2))
+      if (rhs.take 4).toString != specPart then .bad "zn-isbottom" ("expected=" ++ specPart ++ neg ++ " observed=" ++ rhs)
+      else mirror (specPart ++ neg) rhs
+    | _, _ => .unsupported "args"
+  | "crt.more", [ps, qs, rs, xs] => some <|
+    match hexToNat? ps, hexToNat? qs, hexToNat? rs, hexToNat? xs with
+    | some p, some q, some r, some x =>
+      match crt2 (x % p) (x % q) p q, crtList [(x % p, p), (x % q, q), (x % r, r)] with
+      | some v, some (w, n) =>
+        if v ≠ x % (p * q) ∨ w ≠ x % (p * q * r) ∨ n ≠ p * q * r then .unsupported "model crt" else
+        spec "crt-more" (joinComma [hx (p * q), hx (x % p), hx (x % q), hx v, hx (x % p), hx (x % q), hx (x % r), hx w]) rhs
+      | _, _ => .unsupported "model crt"
+    | _, _, _, _ => .unsupported "args"
+  | "ar.more", [ps, qs, xs] => some <|
+    match hexToNat? ps, hexToNat? qs, parseCV xs with
+    | some p, some q, some xc =>
+      let x := xc.nat
+      let n := p * q
+      let fq (r : Nat) : Nat := ((powMod x (r - 1) (r * r) + r * r - 1) % (r * r)) / r
+      spec "modular-more" (joinComma [hx (n * n), hx (n * n), hx (p * p), hx (p * (p - 1)), hx ((p - 1) * (q - 1)), hx (n * ((p - 1) * (q - 1))), "unk",
+        hx (powMod x n (n * n)), hx (fq p), hx (fq q), hx (x * x % (n * n))]) rhs
+    | _, _, _ => .unsupported "args"
+  | "ar.refuse", [_, _] => some (spec "modular-accepts-nonprime" "00000" rhs)
+  | "zn.more", [kind, known, ps, qs, as, bs, es, bitss, us] => some <|
+    match hexToNat? ps, hexToNat? qs, hexToNat? as, hexToNat? bs, hexToInt? es, bitss.toNat?, hexToNat? us with
+    | some p, some q, some a0, some b0, some e, some ebits, some u64 =>
+      let n := p * q
+      let md := if kind == "pail" then n * n else n
+      let a := a0 % md
+      let b := b0 % md
+      let ua := unitOf a md
+      let ub := unitOf b md
+      let un (v : Nat) := okIf (unitOf v md) (hx (v % md))
+      let order := if known == "1" then hx ((if kind == "pail" then n else 1) * ((p - 1) * (q - 1))) else "unk"
+      let head := [un a0, okIf (decide (u64 < md) && unitOf u64 md) (hx u64), (if a0 = 0 then "na" else un a0), un a0, un a, un a, "none", "1", order, b01 (known != "1")]
+      if !(ua && ub) then spec "unit-membership" (joinComma (head ++ ["notunit:" ++ b01 (!ua) ++ b01 (!ub)])) rhs else
+      match invMod a md, invMod b md, powModI a e md, powModI a (truncI e ebits) md with
+      | some ai, some bi, some pe, some peb =>
+        let tf := if known == "1" then isQR a p && isQR a q else jacobi a n == 1
+        spec "unit-group" (joinComma (head ++ [hx a, hx (a * b % md), hx ai, hx (a * bi % md), hx (a * a % md), hx (powMod a e.natAbs md), hx pe,
+          hx (powMod a (e.natAbs % 2 ^ ebits) md), hx peb, b01 (a == 1) ++ b01 (a == b) ++ b01 tf, bytesHex (natToBytes a (ceilDiv (bitLen md) 8)), toString (jacobi a n)])) rhs
+      | _, _, _, _ => .unsupported "model inverse"
+    | _, _, _, _, _, _, _ => .unsupported "args"
+  | "zn.rand", [_, _, ps, qs] => some <|
+    match hexToNat? ps, hexToNat? qs with
+    | some p, some q =>
+      let n := p * q
+      match splitComma rhs with
+      | [rs, qrs, j1s, jm1s, flag] =>
+        match hexToNat? rs, hexToNat? qrs, hexToNat? j1s, hexToNat? jm1s with
+        | some r, some qr, some j1, some jm1 =>
+          if !(decide (r < n) && unitOf r n) then .bad "unit-random" ("not a unit: " ++ rs)
+          else if !(decide (qr < n) && unitOf qr n && isQR qr p && isQR qr q) then .bad "unit-random-qr" ("not a quadratic residue: " ++ qrs)
+          else if !(decide (j1 < n) && unitOf j1 n && jacobi j1 n == 1) then .bad "unit-random-jacobi" ("Jacobi symbol is not 1: " ++ j1s)
+          else if !(decide (jm1 < n) && unitOf jm1 n && jacobi jm1 n == -1) then .bad "unit-random-jacobi" ("Jacobi symbol is not -1: " ++ jm1s)
+          else if flag != "1" then .bad "unit-random-jacobi" "Jacobi symbol 0 requested and not refused"
+          else .ok
+        | _, _, _, _ => .bad "unit-random" rhs
+      | _ => .bad "unit-random" rhs
+    | _, _ => .unsupported "args"
+  | "zn.pail", [_, ps, qs, as, pts, rus] => some <|
+    match hexToNat? ps, hexToNat? qs, hexToNat? as, hexToNat? pts, hexToNat? rus with
+    | some p, some q, some a0, some pt, some ru =>
+      let n := p * q
+      let nn := n * n
+      let a := a0 % nn
+      spec "paillier-group" (joinComma ["ok:" ++ hx ((1 + (pt % n) * n) % nn),
+        (if unitOf a nn then "ok:" ++ hx (powMod a n nn) else "notunit"),
+        (if unitOf ru n then "ok:" ++ hx (ru % n) else "notunit")]) rhs
+    | _, _, _, _, _ => .unsupported "args"
+  | "zn.sample", [kind, form, bs] => some <|
+    match bs.toNat?, parseNatList? rhs with
+    | some bits, some [p, q, md] =>
+      match primeForm form (bits / 2) p, primeForm form (bits / 2) q with
+      | none, none =>
+        if p = q then .bad "primepair-equal" rhs
+        else if bitLen (p * q) ≠ bits then .bad "primepair-product-bitlen" rhs
+        else if md ≠ (if kind == "pail" then p * q * (p * q) else p * q) then .bad "sampled-group-modulus" rhs
+        else .ok
+      | some why, _ => .bad ("primepair-" ++ why) rhs
+      | _, some why => .bad ("primepair-" ++ why) rhs
+    | _, _ => .bad "prime-generation-failed" rhs
+  | "ct.set", [_] => some (spec op "1,0,1,0,1/1,0/1" rhs)
+  | "ct.random", [ms] => some <|
+    match hexToNat? ms, parseNatList? rhs with
+    | some m, some [v, h] => if v < m ∧ h < m then .ok else .bad "random-out-of-range" rhs
+    | _, _ => .bad "random-out-of-range" rhs
+  | "card.more", [vs, us] => some <|
+    match hexToNat? vs, hexToNat? us with
+    | some v, some u =>
+      spec op (joinComma [bytesHex (natToBytes v (ceilDiv (bitLen v) 8)), hx (v % 2 ^ 64), b01 (probablyPrime v), hx u, toString (byteLen u), b01 (u == 0)]) rhs
+    | _, _ => .unsupported "args"
+  | "nt.random", [bs] => some <|
+    match bs.toNat?, splitComma rhs with
+    | some bits, [as, bbs, flag] =>
+      match hexToNat? as, hexToNat? bbs with
+      | some a, some b => if bitLen a = bits ∧ bitLen b = bits ∧ flag == "1" then .ok else .bad "random-bitlen" ("requested " ++ bs ++ " bits: " ++ rhs)
+      | _, _ => .bad "random-bitlen" rhs
+    | _, _ => .bad "random-bitlen" rhs
+  | "NP.ctor", [as, rs, us, los, his, ms] => some <|
+    match hexToNat? as, parseRat rs, hexToNat? us, hexToNat? los, hexToNat? his, hexToNat? ms with
+    | some a, some (rn, rd), some u, some rlo, some rhi, some m =>
+      fieldsVerdict op [some (okIf (rn % (rd : Int) == 0 && decide (rn > 0)) (hi (rn / (rd : Int)))), some (okIf (u != 0) (hx u)), some (okIf (a != 0) (hx a)),
+        some (if rn = 0 then "0" else "1"), some (toString (bitLen m)), none]
+        (fun _ g => inRangeI rlo rhi g) rhs
+    | _, _, _, _, _, _ => .unsupported "args"
+  | "Q.opidentity", [] => some (spec "q-opidentity" "0|1,1" rhs)
+  | "Zn.top1", [] => some (spec "zn-top-modulus-one" "0" rhs)
+  | _, _ => none
+
+
+def handle0 (op : String) (args : List String) (rhs : String) : Verdict :=
+  match handleMore op args rhs with
+  | some v => v
+  | none =>
   if op.startsWith "n." then handleNat op args rhs
   else if op.startsWith "i." then handleInt op args rhs
   else if op.startsWith "m." then handleMod op args rhs
   else if op.startsWith "ar." || op.startsWith "crt." then handleArith op args rhs
   else if op.startsWith "N." || op.startsWith "Z." || op.startsWith "Q." || op.startsWith "Zn." then handleNum op args rhs
   else handleMisc op args rhs
+
+/-- the `expected=… observed=…` pair of a `classify`/`spec` message -/
+def expectedOf (why : String) : Option String :=
+  match why.splitOn "expected=" with
+  | [_, rest] => (rest.splitOn " observed=").head?
+  | _ => none
+
+/-- "reused output" lines (`r!<op>`: every output receiver already held a longer random value): the *values*
+must be those of a fresh receiver; the announced length of a reused receiver is a convention that is not
+claimed, so a difference in the `/<len>` suffixes alone is accepted.  A wrong value is reported under the
+key `reused-output` (one root cause: the receiver's previous contents leak into the result). -/
+def handle (op : String) (args : List String) (rhs : String) : Verdict :=
+  if op.startsWith "r!" then
+    let norm (t : String) : String := let u := stripCaps t; if u.startsWith "ok:" then (u.drop 3).toString else u
+    let sameValues (model : String) : Bool := norm model == norm rhs
+    match handle0 (op.drop 2).toString args rhs with
+    | .ok => .ok
+    | .diff model => if sameValues model then .ok else .bad "reused-output" ("expected=" ++ model ++ " observed=" ++ rhs)
+    | .bad key why =>
+      match expectedOf why with
+      | some model => if sameValues model then .ok else .bad "reused-output" ("(" ++ key ++ ") " ++ why)
+      | none => .bad "reused-output" ("(" ++ key ++ ") " ++ why)
+    | .unsupported w => .unsupported w
+  else handle0 op args rhs
 
 end BronVerif.Drive.C17
